@@ -97,7 +97,7 @@ def run(rep, tier):
     accepted = {v: r for v, r in accepted.items() if r["accept"]}
 
     rb = rep.rule("R05.b", "every opcode the verifier accepts has interpreter paths that do not panic", floor=100)
-    rc = rep.rule("R05.c", "panic paths inside accepted arms are excluded by the verifier's conditions", floor=2)
+    rc = rep.rule("R05.c", "panic paths inside accepted arms are excluded by the verifier's conditions", floor=1)
     re_ = rep.rule("R05.e", "opcodes admitted in last position never fall through to pc+1", floor=2)
     rf = rep.rule("R05.f", "every control transfer of the interpreter targets an address the verifier validated", floor=40)
     nxt = T.op("add", 64, vmodel.PC, T.K(64, 1))
@@ -166,10 +166,35 @@ def run(rep, tier):
                expected="no path continues at pc+1 under any accepting path of the verifier",
                found="%d fall-through paths; accepting paths under which the target is pc+1: %s" % (len(bad), fall.get(v, [])[:2]))
 
-    rd = rep.rule("R05.d", "register numbers the verifier admits index inside the register file", floor=1)
-    rep.ob(rd, "regfile", True and _max_reg(accepted) is not None and _max_reg(accepted) < 11,
+    rd = rep.rule("R05.d", "register numbers the verifier admits index inside the register file, for every opcode whose interpreter arm indexes the register file with that field", floor=100)
+    rep.ob(rd, "regfile", _max_reg(accepted) is not None and _max_reg(accepted) < 11,
            "largest register index admitted by the verifier vs the interpreter's [u64; 11] register file",
            expected="< 11", found=_max_reg(accepted))
+    for v, r in sorted(accepted.items()):
+        used = set()
+        for p in im.per_opcode(v):
+            if p["exit"] and p["exit"][0] == "panic":
+                continue
+            blob = (p["conds"], p["regs"], p["pc"], p["effects"], p["exit"])
+            txt = repr(blob)
+            for f in ("dst", "src"):
+                if "('sel', ('obj', 'REG', '[u64; 11]'), ('zext', 64, ('v', '%s', 8))" % f in txt or \
+                        any(i == ("zext", 64, ("v", f, 8)) for i, _ in p["regs"]):
+                    used.add(f)
+        bad = []
+        for atoms, _ in r["accept"]:
+            for f in sorted(used):
+                bound = None
+                for a in atoms:
+                    for x in _walk(a):
+                        if isinstance(x, tuple) and x and x[0] == "cmp" and x[1] in ("ule", "eq") and len(x) == 5:
+                            for k, y in ((x[4], x[3]), (x[3], x[4])):
+                                if T.is_k(k) and y == ("v", f, 8) and (x[1] == "eq" or k is x[4]):
+                                    bound = k[2] if bound is None else min(bound, k[2])
+                if bound is None or bound > 10:
+                    bad.append("%s unbounded on an accepting path" % f if bound is None else "%s <= %d" % (f, bound))
+        rep.ob(rd, "opc=%#04x" % v, not bad, "opcode %#04x: register fields used by the interpreter arm (%s) are bounded by the verifier" % (v, ",".join(sorted(used)) or "none"),
+               expected="each used field <= 10 on every accepting path", found=sorted(set(bad)) or "bounded")
 
     # ---- R05.a inventory
     ra = rep.rule("R05.a", "panic inventory from the interpreter entry", floor=300)
@@ -182,7 +207,7 @@ def run(rep, tier):
             "register numbers of a verified program are <= 10", cites=("R05.d", "C06/R06.b")),
         Row("opcode-cover", I, r"^panic!unreachable@u8!in\[\d+ values\]$", "D3",
             "the wildcard arm is unreachable: every accepted opcode has its own arm", cites=("R05.b",)),
-        Row("endian-width", I, r"^panic!unreachable@u8=(212|220);i32!in\[16,32,64\]$", "D3",
+        Row("endian-width", I, r"^panic!unreachable@u8=(212|220)(,(212|220))?;i32!in\[16,32,64\]$", "D3",
             "LE/BE immediates of a verified program are 16, 32 or 64", cites=("R05.c",)),
         Row("no-fall-off", I, r"^panic!unreachable@$", "D3",
             "execution cannot leave the loop: the last instruction is EXIT or JA and both never continue at pc+1",
